@@ -125,8 +125,9 @@ class Thermal(_Simu):
             coef = self.rho * thermalModel.c
             C_e = Operators.Bilinear.UV(groupElem, coef=coef, dof_n=1)
 
-            # rescale
-            if self.dim == 2:
+            # rescale (the thermal model is dimensionless: the mesh tells whether the part is 2D,
+            # as for the line and surface loads which are multiplied by the thickness)
+            if self.mesh.dim == 2:
                 thickness = thermalModel.thickness
                 K_e *= thickness
                 C_e *= thickness
